@@ -18,14 +18,14 @@ MANIFEST = dict(
          'or defined (stub_imports_closed). Tied to the code by a translator (reserved words, branches of the type mapping, '
          'callback table, emitted templates, pinned by rfl) and by differential runs: ast of every generated .pyi and the '
          'introspected runtime module against the compiled model, plus a direct oracle on the real artefacts.',
-    note='Two theorems carry a hypothesis the real generators can violate, each shown necessary by a counterexample proved in '
-         'Lean and reproduced on the real code by a hand seed: alias names must be fixed points of fmt_class (D20: the stub says '
-         'As_validator, the module defines AS_validator), and every namespace a resolved annotation mentions must be imported '
-         '(the stub resolves aliases and repeats inherited fields, so it can mention a namespace module its own spec text never '
-         'names). Syntactic validity of the .pyi and resolution of attribute references are observed by testing, not proved. '
-         'Trusted: Lean kernel, translator, generators, CPython ast / inspect / typing. typing.Text is read as str. Names of '
-         'generated specs are Python safe (a void tag or field called like a Python keyword makes BOTH generators emit invalid '
-         'Python: C09 territory, not judged here).',
+    note='stub_imports_closed carries a hypothesis the real generator can violate, shown necessary by a counterexample proved in '
+         'Lean and reproduced on the real code by hand seeds (listed finding): every namespace a resolved annotation mentions '
+         'must be imported - the stub resolves aliases and repeats inherited fields, so it can mention a namespace module its '
+         'own spec text never names. stub_eq_runtime_names has no hypothesis since the repair of D20 (both generators name the '
+         'validator of an alias after fmt_class(alias.name); regression example + seed). Syntactic validity of the .pyi and '
+         'resolution of attribute references are observed by testing, not proved. Trusted: Lean kernel, translator, '
+         'generators, CPython ast / inspect / typing. typing.Text is read as str. Names of generated specs are Python safe (a '
+         'void tag or field called like a Python keyword makes BOTH generators emit invalid Python: C09 territory, not judged).',
     technique='Lean 4 proof + translator + differential correspondence + direct oracle on generated artefacts',
     design='5 C15')
 
